@@ -202,6 +202,8 @@ def _modify(self, op):
         # or not at all: their many-to-one references are not loaded when pony deletes them
         for v in set(w.objs) - set(m2.objs):
             p = self.h.get(v)
+            # an object with a pending UPDATE that is deleted: pony cancels the UPDATE and queues the DELETE at the end
+            if p is not None and p._status_ == 'modified': self.mod_then_del.add(v)
             if p is None or self._is_seed(p):
                 self.seed_deleted.add('%s[%s]' % (w.objs[v].ent, ','.join(map(repr, self._flat_pk(v)))))
                 self.c('seed_deletions')
@@ -379,6 +381,7 @@ def _fk_cycle(self):
 
 def _reset_after_rollback(self):
     self.unflushed = set()
+    self.mod_then_del = set()
     self.tainted = None
     self.seed_reassigned = set()
     self.seed_deleted = set()
@@ -448,6 +451,7 @@ def _tx(self, op):
                 self.pending_dups = bool(self.working.dups())
                 return 'ok'
             self.unflushed = set()
+            self.mod_then_del = set()
             self.dbstate = self.working.copy()
             if cycle: self.c('fkorder.cycle_flushed_ok')
             if kind in ('commit', 'end'):
@@ -468,15 +472,19 @@ def _tx(self, op):
             # deletes later or re-points (its in-session reference was changed before)?
             dbstate = self.dbstate if self.dbstate is not None else self.committed     # what the database holds (last full flush)
             gone = set(dbstate.objs) - set(self.working.objs)
-            referenced = False
+            referenced = False; referrers = set()
             for xo, x in dbstate.objs.items():
                 cls = self.cls[x.ent]
                 for a in cls._attrs_:
                     if a.is_collection or not a.reverse or not a.columns: continue
                     y = x.vals.get(a.name)
-                    if y in gone and (xo in gone or self.working.objs[xo].vals.get(a.name) != y): referenced = True
+                    if y in gone and (xo in gone or self.working.objs[xo].vals.get(a.name) != y): referenced = True; referrers.add(xo)
+            # the known mechanism: the referring row had a pending UPDATE and was then deleted (its DELETE went to the end
+            # of the queue, behind the DELETE of the row it still references in the database)
+            mtd = bool(referrers) and all(x in self.mod_then_del for x in referrers)
             self.report('fkorder', 'foreign_key_error_on_flush', {'op': kind, 'exc': name, 'msg': msg[:200], 'cycle': cycle,
-                                                                  'failed_sql': failed_sql, 'deleted_row_still_referenced_in_db': referenced})
+                                                                  'failed_sql': failed_sql, 'deleted_row_still_referenced_in_db': referenced,
+                                                                  'referrers_modified_then_deleted': mtd})
         if name == 'UnresolvableCyclicDependency':
             if cycle: self.c('fkorder.cycle_refused')
             else: self.report('fkorder', 'cyclic_dependency_error_without_cycle', {'op': kind, 'msg': msg[:200]})
@@ -671,7 +679,14 @@ def _read(self, op):
 
 
 def _pk_public(self, oid):
-    t = self._flat_pk(oid)
+    """primary key as to_dict() shows it: the raw column values, references inside the key flattened"""
+    def flat(t):
+        out = []
+        for x in t:
+            if isinstance(x, tuple): out.extend(flat(x))
+            else: out.append(x)
+        return out
+    t = tuple(flat(self._flat_pk(oid)))
     return t[0] if len(t) == 1 else t
 
 
@@ -716,6 +731,7 @@ def install():
     Engine.pending_taint_stop = False
     Engine.failed_call_ctx = None
     Engine.tainted_ctx = None
+    Engine.mod_then_del = set()
     Engine.dbstate = None
     Engine._learn_auto_pks = _learn_auto_pks
     Engine._judge_read = _judge_read
@@ -849,10 +865,28 @@ class Gen(object):
                     involved = sorted(set(x for d in w.dups() for x in d[3] if x in eng.unflushed and x in eng.h))
                     if involved: op['oid'] = r.choice(involved)
             return op
+        # follow-ups queued by an earlier operation (see below)
+        q = getattr(self, 'queue', None)
+        while q:
+            op = q.pop(0)
+            if op.get('oid') is not None and op['oid'] not in w.objs and op['op'] != 'flush': continue
+            if eng.session is None and op['op'] in ('flush', 'rollback', 'abort'): continue
+            return op
         for _ in range(20):
             kind = r.choices(self.kinds, [self.w[k] for k in self.kinds])[0]
             op = self._gen_kind(kind)
-            if op is not None: return op
+            if op is None: continue
+            if op['op'] in READ_OPS: self.last_read = op
+            elif op['op'] in MOD_OPS and op.get('oid') is not None and r.random() < getattr(self, 'followup_rate', 0.12):
+                # patterns that need three cooperating steps: the object just changed is written on its own by
+                # obj.flush(), and then either the previous read is repeated (its cached answer must not survive) or
+                # the session is rolled back (what obj.flush() wrote must not stay in the database)
+                self.queue = [{'op': 'flush', 'oid': op['oid']}]
+                lr = getattr(self, 'last_read', None)
+                x = r.random()
+                if x < 0.55 and lr is not None: self.queue.append(dict(lr))
+                elif x < 0.8: self.queue.append({'op': r.choice(['rollback', 'abort'])})
+            return op
         return {'op': 'end'}
 
     def _gen_kind(self, kind):
